@@ -39,7 +39,7 @@ func init() {
 	propMeta["C07"] = l2("stress, stress-static (strict-host on static worlds) and stress-gateway (Gateway API worlds) profiles: every configuration written in a run without disk faults is analysed; non-trivial = at least 2 analysed configurations; distinct = distinct trace signature",
 		"fatal = what HAProxy refuses at load (unknown backend/userlist/file, duplicated section/server/bind); dangling = map value or path id that resolves to nothing")
 	propMeta["C02"] = l2("endpoint/weight/certificate churn (chain-only rotations included) with runtime commands and socket faults (refused commit ssl cert among them); an admin connection belongs to the worker process that accepted it; non-trivial = runtime commands were sent and the running state was compared with the files at least once; distinct = distinct trace signature")
-	propMeta["C11"] = l2("(a) histories of spurious re-notifications (with a tcp-services ConfigMap in one run of three, and with service backed external authentication in profile quiet-renotify-auth), (b) endpoint churn under dynamic scaling; non-trivial = at least 2 reconciliations after start-up; distinct = distinct trace signature")
+	propMeta["C11"] = l2("(a) histories of spurious re-notifications (with a tcp-services ConfigMap in one run of three, with service backed external authentication in profile quiet-renotify-auth, and with dynamic-scaling=false backends, drain-support and a configured endpoint order in profile quiet-renotify-static), (b) endpoint churn under dynamic scaling; non-trivial = at least 2 reconciliations after start-up; distinct = distinct trace signature")
 	propMeta["C13"] = meta{rule: "each run = one limiter (reload or reconcile), one interval setting and 3..28 notification arrivals placed relative to the interval (bursts, just before/after a scheduled run, during a run, idle gaps), with processing times; non-trivial = at least 3 arrivals; distinct = distinct trace signature",
 		assumptions: []string{"spacing is measured from the instant a run was due: a start held back by the single worker being busy with another run is not the limiter's doing", "reload retries after a failed reload bypass the limiter by design and are C12's subject"},
 		real:        []string{"pkg/utils/workqueue rate limiters and WorkQueue", "client-go rate-limiting/delaying queue", "controller-runtime controller worker loop (reconcile profile)"},
@@ -48,7 +48,7 @@ func init() {
 		assumptions: []string{"watchers.go is instrumented with a yield before every statement and a scheduler-aware mutex; exactly one task runs at a time", "porcupine decides linearizability of the put/take-all history against a multiset accumulator; Unknown (timeout) is harness trouble, never a verdict"},
 		real:        []string{"pkg/controller/reconciler watchers: handlers, predicates, compose/notify, getChangedObjects/initCh"},
 		stub:        []string{"validator (class membership read from the object)", "reconcile queue: recorder", "informers: scheduler-owned tasks"}}
-	propMeta["C03"] = l2("routing and routing-static profiles: after every sync point ~100..400 requests (declared paths and their neighbours, both schemes, host case/port variants, unknown hosts) are evaluated on the written files and on the running HAProxy and compared with a reference router written from the Ingress specification; non-trivial = at least 2 reconciliations and 2 router comparisons; distinct = distinct trace signature",
+	propMeta["C03"] = l2("routing, routing-static and routing-dup-owner profiles (the last one: histories in which a twice-declared host/path changes owner, under the narrowed constraint dup_paths_exclusive_service): after every sync point ~100..400 requests (declared paths and their neighbours, both schemes, host case/port variants, unknown hosts) are evaluated on the written files and on the running HAProxy and compared with a reference router written from the Ingress specification; non-trivial = at least 2 reconciliations and 2 router comparisons; distinct = distinct trace signature",
 		"the request evaluator interprets the frontend/backend rules HAProxy would run (map converters, use_backend, redirects, denies); an unmodelled construct is harness trouble (exit 2), never a verdict",
 		"the reference accepts either rule when one path is declared with two non-exact types, and ready+terminating endpoints as drained")
 	propMeta["C04"] = meta{rule: "each run = one path-type-order permutation and 2..16 (host, path, type) rules fed to the real map builder, whose internal map iteration is decided by the tape; every declared path and its neighbours is looked up on declared and foreign hosts; non-trivial = every run (a rule set was compared); distinct = distinct trace signature",
